@@ -12,6 +12,7 @@ resume/no-resume and draining flag.  Token sealing/opening is an ideal stub (C25
 from __future__ import annotations
 
 import types
+from typing import Protocol
 
 from engine.api import cond, pick
 
@@ -35,11 +36,13 @@ ENCODED = [
     cl._SessionTrackingClient._capture,
 ]
 BOUNDS = "one request with a method script of <= 3 actions over {open, close, nothing}; opt-in header absent / 'true' in 4 spellings / 'false' / any string <= %d chars; resumed or fresh; draining or not; then one follow-up request that resumes whatever the client holds" % pick(2, 3)
-OUTSIDE = "token sealing/opening and identity binding (C25), concurrency (C26), TTL expiry, Falcon/httpx plumbing between the header maps"
+OUTSIDE = "token sealing/opening and identity binding (C25), concurrency (C26), TTL expiry; the Falcon/httpx plumbing between the header maps is exercised only by the real-HTTP replay of a counterexample, not by the solver"
 ASSUMPTIONS = [
     "_seal_session_token/_open_session_token := ideal: a token opens to exactly the (server id, session id) it was sealed for",
     "identity is anonymous and the worker id constant (C25 covers mismatches)",
     "the method body is played as a script of real CallContext.open_session/close_session calls between process_request and process_response",
+    "oracle (_judge): an open MUST succeed only for the spec's literal header value 'true' on a serving worker with no active session; for other spellings of true either answer is accepted; an open while draining with no active session MUST be answered server_draining",
+    "a counterexample is reported only if it reproduces through the un-stubbed HTTP stack (make_sync_client + http_connect + with_session_token)",
 ]
 
 # ---- environment stubs installed in the (process-local) module globals --------------------
@@ -179,7 +182,7 @@ def _play(resume: bool, accept_kind: int, free: str, draining: bool, a1: int, a2
     view, tc = _client_view(held)
     if client_side:
         headers = tc._merge_headers(None)  # the real client: always opts in
-        opted_in = True
+        opted_in = exact = True
     else:
         headers = {}
         av = _accept_value(accept_kind, free)
@@ -187,17 +190,14 @@ def _play(resume: bool, accept_kind: int, free: str, draining: bool, a1: int, a2
             headers[st.SESSION_ACCEPT_HEADER] = av
         if held is not None:
             headers[st.SESSION_HEADER] = held
-        opted_in = av is not None and av.strip().lower() == "true"
+        opted_in = av is not None and av.strip().lower() == "true"  # every spelling a lenient server may take for true
+        exact = av == "true"  # the spec's literal: here an open must succeed
     live_before = len(registry)
     resp, outcomes = _serve(mw, headers, [a1, a2, a3], states)
     # ---- server-side rules ------------------------------------------------------------------
-    for o in outcomes:
-        if o == "opened" and (not opted_in or draining):
-            return "session opened without opt-in or while draining"
-    if resume and "lost" in outcomes:
-        return "existing session not served (drain or no-op must not lose it)"
-    # every open attempt while draining is answered server_draining, every one without opt-in refused
-    # (a refusal may also be "already active": allowed)
+    bad = _judge(opted_in, draining, resume, [a1, a2, a3], outcomes, exact)
+    if bad:
+        return bad
     live = [sid for sid in registry]
     if len(live) > max(live_before, 1) and not any(o == "opened" for o in outcomes):
         return "registry grew without an accepted open"
@@ -218,21 +218,163 @@ def _play(resume: bool, accept_kind: int, free: str, draining: bool, a1: int, a2
     return ""
 
 
+def _judge(opted_in: bool, draining: bool, resume: bool, script: list[int], outcomes: list[str], exact: bool = True) -> str:
+    """The property's server-side rules on one request, stated over what the method saw
+    (shared by the kernel and the real-HTTP replay; nothing here reads the implementation).
+    opted_in: the header value is some spelling of true (an open MAY succeed); exact: it is the
+    literal ``true`` of the spec (an open MUST then succeed when nothing else forbids it)."""
+    if "lost" in outcomes:
+        return "existing session not served (drain or no-op must not lose it)" if resume else "request without a session token answered as session-lost"
+    active = resume  # does this request currently have a live session?
+    it = iter(outcomes)
+    for a in script:
+        if a == 0:
+            continue
+        o = next(it, None)
+        if o is None:
+            return "the method script did not run to its end"
+        if a == 2:
+            active = False
+            continue
+        if o == "opened":
+            if not opted_in:
+                return "session opened for a request that did not carry VGI-Session-Accept: true"
+            if draining:
+                return "session opened while the worker is draining"
+            active = True
+        elif o == "draining":
+            if not draining:
+                return "open answered server_draining on a worker that is not draining"
+        elif o == "refused":
+            if opted_in and exact and draining and not active:
+                return "open while draining was refused with something other than server_draining"
+            if opted_in and exact and not draining and not active:
+                return "opted-in open on a serving worker with no active session was refused"
+        else:
+            return "unexpected outcome %r" % (o,)
+    return ""
+
+
+# ---- real replay: the same scenario through the real HTTP stack (nothing stubbed) -----------
+
+
+class _RSvc(Protocol):
+    def act(self, a1: int, a2: int, a3: int) -> str: ...
+
+
+class _RState:
+    def close(self) -> None:
+        pass
+
+
+class _RImpl:
+    def act(self, a1: int, a2: int, a3: int, ctx: rc.CallContext) -> str:
+        out: list[str] = []
+        for a in (a1, a2, a3):
+            if a == 1:
+                try:
+                    ctx.open_session(_RState())
+                    out.append("opened")
+                except rc.ServerDrainingError:
+                    out.append("draining")
+                except RuntimeError:
+                    out.append("refused")
+            elif a == 2:
+                ctx.close_session()
+                out.append("closed")
+        return ",".join(out)
+
+
+class _HdrClient:
+    """The in-process test client with fixed extra request headers (a client that is not ours)."""
+
+    def __init__(self, inner, extra: dict) -> None:  # type: ignore[no-untyped-def]
+        self._inner, self._extra = inner, extra
+
+    def post(self, url, *, content, headers):  # type: ignore[no-untyped-def]
+        return self._inner.post(url, content=content, headers={**headers, **self._extra})
+
+    def __getattr__(self, name):  # type: ignore[no-untyped-def]
+        return getattr(self._inner, name)
+
+
+def _call(proxy, a1: int, a2: int, a3: int) -> list[str]:  # type: ignore[no-untyped-def]
+    try:
+        r = proxy.act(a1=a1, a2=a2, a3=a3)
+    except Exception as e:  # noqa: BLE001
+        kind = getattr(e, "error_type", type(e).__name__)
+        if "SessionLost" in str(kind):
+            return ["lost"]
+        raise
+    return [x for x in r.split(",") if x]
+
+
 def _replay(a: dict) -> str | None:
-    """Same scenario on the un-stubbed server through the real HTTP stack is not available in this
-    sandbox (end-to-end HTTP client tests fail here); the concrete re-run above already executes
-    the real functions on both sides, with only token sealing idealised."""
+    """The counterexample's scenario on the un-stubbed stack: real RpcServer + make_wsgi_app with
+    sticky sessions, real token sealing, the real http_connect client (with_session_token for the
+    client-view item, a plain proxy with hand-set headers otherwise).  Judged by the property
+    rules (_judge) and by what a user can observe: the view's token vs the registry's live
+    sessions, and whether the follow-up request is served."""
+    import warnings
+
+    from vgi_rpc import RpcServer
+    from vgi_rpc.http import drain_handle, http_connect
+    from vgi_rpc.http._testing import make_sync_client
+
     client_side = "accept_kind" not in a and "free" not in a
-    r = _play(a["resume"], a.get("accept_kind", 6 if "free" in a else 1), a.get("free", ""), a["draining"], a.get("a1", 1), a.get("a2", 0), a.get("a3", 0), client_side)
-    return r or None
+    script = [a.get("a1", 1), a.get("a2", 0), a.get("a3", 0)]
+    resume, draining = bool(a["resume"]), bool(a["draining"])
+    with warnings.catch_warnings():
+        warnings.simplefilter("ignore")
+        client = make_sync_client(RpcServer(_RSvc, _RImpl()), enable_sticky=True, token_key=b"k" * 32)
+    try:
+        handle = drain_handle(client._client.app)
+        registry = handle.shutdown.__self__  # type: ignore[union-attr]
+        with http_connect(_RSvc, client=client) as proxy, proxy.with_session_token() as sess:  # type: ignore[attr-defined]
+            if resume and _call(sess, 1, 0, 0) != ["opened"]:
+                return None  # could not set the scene: says nothing
+            if draining:
+                handle.drain()  # type: ignore[union-attr]
+            if client_side:
+                outcomes = _call(sess, *script)
+                bad = _judge(True, draining, resume, script, outcomes, True)
+                if bad:
+                    return "real HTTP stack: " + bad
+                live = len(list(registry))
+                tok = sess.current_session_token()
+                if live > 1:
+                    return "real HTTP stack: more than one live session for one client"
+                if (tok is None) != (live == 0):
+                    return "real HTTP stack: after script %r the client view holds %s while the server keeps %d session(s) live" % (script, "a token" if tok else "no token", live)
+                if _call(sess, 0, 0, 0) == ["lost"]:
+                    return "real HTTP stack: follow-up request with the client's token was refused as session-lost"
+                return None
+            av = _accept_value(a.get("accept_kind", 6 if "free" in a else 1), a.get("free", ""))
+            extra: dict = {}
+            if av is not None:
+                try:
+                    av.encode("latin-1")
+                except UnicodeEncodeError:
+                    return None  # not a header value a WSGI server can deliver
+                extra[st.SESSION_ACCEPT_HEADER] = av
+            tok = sess.current_session_token() if resume else None
+            if tok is not None:
+                extra[st.SESSION_HEADER] = tok
+            opted_in = av is not None and av.strip().lower() == "true"
+            with http_connect(_RSvc, client=_HdrClient(client, extra)) as raw:  # type: ignore[arg-type]
+                outcomes = _call(raw, *script)
+            bad = _judge(opted_in, draining, resume, script, outcomes, av == "true")
+            return ("real HTTP stack: " + bad) if bad else None
+    finally:
+        client.close()
 
 
 def _sig(a: dict, conc) -> str:  # type: ignore[no-untyped-def]
     r = _replay(a) or ""
-    if "client holds" in r:
+    if "client holds" in r or "client view holds" in r:
         seq = [x for x in (a.get("a1", 0), a.get("a2", 0), a.get("a3", 0)) if x]
         return "C27:client-view:" + "-".join({1: "open", 2: "close"}[x] for x in seq)
-    return "C27:" + r[:40]
+    return "C27:" + r.replace("real HTTP stack: ", "")[:40]
 
 
 _L = pick(2, 3)
